@@ -77,8 +77,8 @@ func liveScenario(c liveCase, bound int) *vx.Scenario {
 					if at == 0 {
 						continue
 					}
-					if at > D-c.C.I/2 {
-						return
+					if at > D-c.C.I/2-8*c.Lat {
+						return // the last message must have time to arrive before the observation ends
 					}
 					if d := at - e.Clock(); d > 0 {
 						vsched.Sleep(d)
@@ -104,25 +104,14 @@ func liveScenario(c liveCase, bound int) *vx.Scenario {
 			ctx := fmt.Sprintf("%s, observed for %v of virtual time: server OnClose %s, client OnClose %s; %d pings reached the client (last at %v), %d pongs reached the server (last at %v); errors server=%v client=%v",
 				c.name(), D, closes(p.srvClose), closes(p.cliClose), len(p.cliPingAt), last(p.cliPingAt), len(p.srvPongAt), last(p.srvPongAt), p.srvErrs, p.cliErrs)
 			if len(p.srvClose)+len(p.cliClose) > 0 {
-				first, who := closeEv{At: 1 << 62}, ""
-				for _, ev := range p.srvClose {
-					if ev.At < first.At {
-						first, who = ev, "server"
-					}
-				}
-				for _, ev := range p.cliClose {
-					if ev.At < first.At {
-						first, who = ev, "client"
-					}
-				}
-				what := "live idle peer disconnected by the heartbeat"
+				what := killIdle
 				if c.Sender != "" {
-					what = "live peer with application traffic disconnected by the heartbeat"
+					what = killTraffic
 				}
 				if c.Lat > 0 {
-					what = "live peer answering every ping within pingTimeout/4 disconnected by the heartbeat"
+					what = killLatency
 				}
-				r.Violate(fmt.Sprintf("%s (first: %s reports %s)", what, who, first.Reason), "%s", ctx)
+				r.Violate(liveKillKey(what, p), "%s", ctx)
 			}
 			a, b := append([]string{}, sent...), append([]string{}, got...)
 			sort.Strings(a)
@@ -152,5 +141,25 @@ func liveCases(c itCfg) []liveCase {
 	out = append(out, liveCase{C: c, Lat: c.T / 8})
 	out = append(out, liveCase{C: c, Lat: c.T / 8, Sender: "client", PhiName: "0"})
 	out = append(out, liveCase{C: c, Lat: c.T / 8, Sender: "server", PhiName: "0"})
+	return out
+}
+
+// liveScenarios: quick explores every case over the whole run at bound 1. Thorough explores every case
+// over the whole run at bound 2, except the senders that fire at the very instant of each ping (a
+// tie at every one of the 15-20 periods makes the pairs of deviations explode): those get the whole run
+// at bound 1 plus bound 2 inside a window of three heartbeat periods that starts before the first ping.
+func liveScenarios(c itCfg, tier string) []*vx.Scenario {
+	var out []*vx.Scenario
+	for _, lc := range liveCases(c) {
+		if tier != "thorough" {
+			out = append(out, liveScenario(lc, 1))
+			continue
+		}
+		if lc.Sender != "" && lc.Phi == 0 && lc.Lat == 0 {
+			out = append(out, liveScenario(lc, 1))
+			lc.From, lc.Window = 3*c.I/8, 3*c.I
+		}
+		out = append(out, liveScenario(lc, 2))
+	}
 	return out
 }
